@@ -179,6 +179,7 @@ pub struct World {
     pub n_stdout_writes: u32,
     pub file_bytes_written: usize,
     pub eintr_streak: u32,
+    pub log_dropped: u64,
 }
 
 pub static WORLD: Mutex<Option<World>> = Mutex::new(None);
@@ -194,7 +195,18 @@ fn splitmix(x: &mut u64) -> u64 {
     z ^ (z >> 31)
 }
 
+/// Event-log lines kept per execution; beyond that only a count is kept (large inputs read
+/// one byte at a time would otherwise log hundreds of thousands of lines).
+pub const LOG_CAP: usize = 4000;
+
 impl World {
+    pub fn logline(&mut self, s: String) {
+        if self.log.len() < LOG_CAP {
+            self.log.push(s);
+        } else {
+            self.log_dropped += 1;
+        }
+    }
     fn bump(&mut self, k: &'static str) {
         *self.counters.entry(k).or_insert(0) += 1;
     }
@@ -246,7 +258,7 @@ pub fn with_world<R>(f: impl FnOnce(&mut World) -> R) -> R {
 
 fn crash(why: &'static str) -> ! {
     with_world(|w| {
-        w.log.push(format!("crash {}", why));
+        w.logline(format!("crash {}", why));
         w.bump("crash_fired");
     });
     ::std::panic::resume_unwind(Box::new(SimCrash(why)))
@@ -266,7 +278,7 @@ pub mod simstd {
 
     pub mod process {
         pub fn exit(code: i32) -> ! {
-            crate::world::with_world(|w| w.log.push(format!("exit {}", code)));
+            crate::world::with_world(|w| w.logline(format!("exit {}", code)));
             ::std::panic::resume_unwind(Box::new(crate::world::SimExit(code)))
         }
     }
@@ -337,7 +349,7 @@ pub mod simstd {
                     if let Some(HardFault::Eacces(p)) = &w.plan.hard {
                         if *p == path {
                             w.bump("eacces_fired");
-                            w.log.push(format!("open {} -> EACCES", path));
+                            w.logline(format!("open {} -> EACCES", path));
                             return Err(io::Error::from_raw_os_error(libc::EACCES));
                         }
                     }
@@ -346,24 +358,24 @@ pub mod simstd {
                         return Err(io::Error::from_raw_os_error(libc::EINVAL));
                     }
                     if self.create_new && exists {
-                        w.log.push(format!("open {} -> EEXIST", path));
+                        w.logline(format!("open {} -> EEXIST", path));
                         return Err(io::Error::from_raw_os_error(libc::EEXIST));
                     }
                     if !exists {
                         if writing && (self.create || self.create_new) {
                             w.fs.insert(path.clone(), Vec::new());
-                            w.log.push(format!("create {}", path));
+                            w.logline(format!("create {}", path));
                         } else {
                             w.bump("enoent_fired");
-                            w.log.push(format!("open {} -> ENOENT", path));
+                            w.logline(format!("open {} -> ENOENT", path));
                             return Err(io::Error::from_raw_os_error(libc::ENOENT));
                         }
                     } else if writing && self.truncate {
                         let old = w.fs.get(&path).map(|v| v.len()).unwrap_or(0);
                         w.fs.insert(path.clone(), Vec::new());
-                        w.log.push(format!("truncate {} (was {} bytes)", path, old));
+                        w.logline(format!("truncate {} (was {} bytes)", path, old));
                     } else {
-                        w.log.push(format!("open {} ({})", path, if writing { "w" } else { "r" }));
+                        w.logline(format!("open {} ({})", path, if writing { "w" } else { "r" }));
                     }
                     Ok(File {
                         path: path.clone(),
@@ -406,7 +418,7 @@ pub mod simstd {
                 OpenOptions::new()
             }
             pub fn sync_all(&self) -> io::Result<()> {
-                with_world(|w| w.log.push(format!("fsync {}", self.path)));
+                with_world(|w| w.logline(format!("fsync {}", self.path)));
                 Ok(())
             }
             pub fn sync_data(&self) -> io::Result<()> {
@@ -414,7 +426,7 @@ pub mod simstd {
             }
             pub fn set_len(&self, size: u64) -> io::Result<()> {
                 with_world(|w| {
-                    w.log.push(format!("set_len {} {}", self.path, size));
+                    w.logline(format!("set_len {} {}", self.path, size));
                     if let Some(v) = w.fs.get_mut(&self.path) {
                         v.resize(size as usize, 0);
                     }
@@ -435,11 +447,11 @@ pub mod simstd {
                 w.n_reads += 1;
                 if w.plan.hard == Some(HardFault::EioRead(n_call)) {
                     w.bump("eio_read_fired");
-                    w.log.push(format!("read {} -> EIO", f.path));
+                    w.logline(format!("read {} -> EIO", f.path));
                     return Err(io::Error::from_raw_os_error(libc::EIO));
                 }
                 if w.eintr(w.plan.eintr_read, "eintr_read_fired") {
-                    w.log.push(format!("read {} -> EINTR", f.path));
+                    w.logline(format!("read {} -> EINTR", f.path));
                     return Err(io::Error::from(io::ErrorKind::Interrupted));
                 }
                 let len = w.fs.get(&f.path).map(|v| v.len()).unwrap_or(0);
@@ -461,7 +473,7 @@ pub mod simstd {
                         }
                     }
                 }
-                w.log.push(format!("read {} @{} {}/{}", f.path, f.pos, n, buf.len()));
+                w.logline(format!("read {} @{} {}/{}", f.path, f.pos, n, buf.len()));
                 f.pos += n;
                 Ok(n)
             })
@@ -476,11 +488,11 @@ pub mod simstd {
                 w.n_writes += 1;
                 if w.plan.hard == Some(HardFault::EnospcWrite(n_call)) {
                     w.bump("enospc_write_fired");
-                    w.log.push(format!("write {} -> ENOSPC", f.path));
+                    w.logline(format!("write {} -> ENOSPC", f.path));
                     return Err(io::Error::from_raw_os_error(libc::ENOSPC));
                 }
                 if w.eintr(w.plan.eintr_write, "eintr_write_fired") {
-                    w.log.push(format!("write {} -> EINTR", f.path));
+                    w.logline(format!("write {} -> EINTR", f.path));
                     return Err(io::Error::from(io::ErrorKind::Interrupted));
                 }
                 let mut n = w.chunk(w.plan.short_write, buf.len(), "short_write_fired");
@@ -502,7 +514,7 @@ pub mod simstd {
                 let overlap = (file.len() - f.pos).min(n);
                 file[f.pos..f.pos + overlap].copy_from_slice(&buf[..overlap]);
                 file.extend_from_slice(&buf[overlap..n]);
-                w.log.push(format!("write {} @{} {}/{}", f.path, f.pos, n, buf.len()));
+                w.logline(format!("write {} @{} {}/{}", f.path, f.pos, n, buf.len()));
                 f.pos += n;
                 w.file_bytes_written += n;
                 Ok((n, die))
@@ -601,7 +613,7 @@ pub mod simstd {
         pub fn remove_file<P: AsRef<::std::path::Path>>(path: P) -> io::Result<()> {
             let path = path.as_ref().to_string_lossy().into_owned();
             with_world(|w| {
-                w.log.push(format!("unlink {}", path));
+                w.logline(format!("unlink {}", path));
                 match w.fs.remove(&path) {
                     Some(_) => Ok(()),
                     None => Err(io::Error::from_raw_os_error(libc::ENOENT)),
@@ -613,7 +625,7 @@ pub mod simstd {
             let from = from.as_ref().to_string_lossy().into_owned();
             let to = to.as_ref().to_string_lossy().into_owned();
             with_world(|w| {
-                w.log.push(format!("rename {} {}", from, to));
+                w.logline(format!("rename {} {}", from, to));
                 match w.fs.remove(&from) {
                     Some(v) => {
                         w.fs.insert(to, v);
@@ -663,16 +675,16 @@ pub mod simstd {
                 w.n_reads += 1;
                 if w.stdin_tty {
                     // a terminal with nobody typing: model as immediate EOF
-                    w.log.push("read <stdin:tty> -> EOF".into());
+                    w.logline("read <stdin:tty> -> EOF".into());
                     return Ok(0);
                 }
                 if w.plan.hard == Some(HardFault::EioRead(n_call)) {
                     w.bump("eio_read_fired");
-                    w.log.push("read <stdin> -> EIO".into());
+                    w.logline("read <stdin> -> EIO".into());
                     return Err(Error::from_raw_os_error(libc::EIO));
                 }
                 if w.eintr(w.plan.eintr_read, "eintr_read_fired") {
-                    w.log.push("read <stdin> -> EINTR".into());
+                    w.logline("read <stdin> -> EINTR".into());
                     return Err(Error::from(ErrorKind::Interrupted));
                 }
                 let avail = w.stdin.len() - w.stdin_pos;
@@ -686,7 +698,7 @@ pub mod simstd {
                         *w.counters.entry("probe_multibyte_split_by_short_read").or_insert(0) += 1;
                     }
                 }
-                w.log.push(format!("read <stdin> @{} {}/{}", p, n, buf.len()));
+                w.logline(format!("read <stdin> @{} {}/{}", p, n, buf.len()));
                 w.stdin_pos += n;
                 Ok(n)
             })
@@ -743,17 +755,17 @@ pub mod simstd {
                 if let Some(HardFault::EpipeStdout(k)) = w.plan.hard {
                     if n_call >= k {
                         w.bump("epipe_stdout_fired");
-                        w.log.push("write <stdout> -> EPIPE".into());
+                        w.logline("write <stdout> -> EPIPE".into());
                         return Err(Error::from_raw_os_error(libc::EPIPE));
                     }
                 }
                 if w.eintr(w.plan.eintr_write, "eintr_write_fired") {
-                    w.log.push("write <stdout> -> EINTR".into());
+                    w.logline("write <stdout> -> EINTR".into());
                     return Err(Error::from(ErrorKind::Interrupted));
                 }
                 let n = w.chunk(w.plan.short_write, buf.len(), "short_write_fired");
                 w.stdout.extend_from_slice(&buf[..n]);
-                w.log.push(format!("write <stdout> {}/{}", n, buf.len()));
+                w.logline(format!("write <stdout> {}/{}", n, buf.len()));
                 Ok(n)
             })
         }
@@ -775,7 +787,7 @@ pub mod simstd {
             fn write(&mut self, buf: &[u8]) -> Result<usize> {
                 with_world(|w| {
                     w.stderr.extend_from_slice(buf);
-                    w.log.push(format!("write <stderr> {}", buf.len()));
+                    w.logline(format!("write <stderr> {}", buf.len()));
                 });
                 Ok(buf.len())
             }
@@ -820,7 +832,7 @@ pub mod simatty {
     pub fn is(s: Stream) -> bool {
         match s {
             Stream::Stdin => crate::world::with_world(|w| {
-                w.log.push(format!("isatty <stdin> -> {}", w.stdin_tty));
+                w.logline(format!("isatty <stdin> -> {}", w.stdin_tty));
                 w.stdin_tty
             }),
             _ => false,
@@ -853,7 +865,7 @@ pub mod simclap {
                         } else {
                             w.stdout.extend_from_slice(rendered.as_bytes());
                         }
-                        w.log.push(format!("clap exit {}", code));
+                        w.logline(format!("clap exit {}", code));
                     });
                     ::std::panic::resume_unwind(Box::new(crate::world::SimExit(code)))
                 }
@@ -1023,6 +1035,10 @@ pub fn execute(fs: &mut Fs, ex: &Exec, entry: fn()) -> Outcome {
         Status::Exit(c) => world.log.push(format!("status exit={}", c)),
         Status::Panic(m) => world.log.push(format!("status panic={}", m)),
         Status::Crash(w) => world.log.push(format!("status crash={}", w)),
+    }
+    if world.log_dropped > 0 {
+        let n = world.log_dropped;
+        world.log.push(format!("(+{} further I/O events not logged)", n));
     }
     world.log.push(format!("clock reads={} first={:?}", clock.reads, clock.first));
     *fs = std::mem::take(&mut world.fs);
